@@ -257,7 +257,7 @@ class Ctx:
             if isinstance(src, (dict, list)):
                 with open(os.path.join(d, dst), "w") as fh:
                     json.dump(src, fh, indent=1)
-            elif os.path.exists(src):
+            elif isinstance(src, str) and os.path.isfile(src):
                 shutil.copy(src, os.path.join(d, dst))
             else:
                 with open(os.path.join(d, dst), "w") as fh:
